@@ -179,6 +179,30 @@ def main():
         found = ("Invariant %s is violated" % inv) in o
         print("(iii) %-86s -> TLC: %s" % (title, "Invariant %s is violated" % inv if found else "NOT DETECTED: " + o[-300:].replace("\n", " ")))
         ok &= found
+    # ---------------------------------------------------------------- (iv) Apalache: MapRef is not vacuous
+    for title, old, new in [
+        ("swap-remove moves the wrong slot into the hole", "SubSeq([slots EXCEPT ![i] = slots[n]], 1, n - 1)\n          /\\ last' = [Call(\"remove\")", "SubSeq([slots EXCEPT ![i] = slots[1]], 1, n - 1)\n          /\\ last' = [Call(\"remove\")"),
+        ("insert stores the new key object", "r |-> IF upd THEN r ELSE slots[i].r, v |-> v]", "r |-> r, v |-> v]"),
+        ("retain advances after a removal", "ELSE LET n == Len(slots) IN ri' = ri /\\ slots'", "ELSE LET n == Len(slots) IN ri' = ri + 1 /\\ slots'"),
+    ]:
+        d = fresh("apa")
+        p = os.path.join(d, "MapRef.tla")
+        t = open(p).read()
+        if old not in t:
+            print("(iv) %s: the text to mutate was not found" % title)
+            ok = False
+            continue
+        open(p, "w").write(t.replace(old, new))
+        outs = []
+        for inv in ("Refines", "IndInv"):
+            q = subprocess.run(["timeout", "2400", "apalache-mc", "check", "--cinit=ConstInit", "--init=IndInit", "--inv=" + inv, "--length=1", "MapRef.tla"],
+                               cwd=d, stdout=subprocess.PIPE, stderr=subprocess.STDOUT, text=True)
+            outs.append("The outcome is: Error" in q.stdout)
+            if outs[-1]:
+                break
+        print("(iv) %-86s -> Apalache: %s" % ("MapRef: " + title, "refuted" if any(outs) else "NOT DETECTED"))
+        ok &= any(outs)
+        shutil.rmtree(d, ignore_errors=True)
     print("selftest", "ok" if ok else "FAILED")
     return 0 if ok else 1
 
